@@ -241,6 +241,16 @@ class TDict(Ty):
         return _dt(self.key, build)
 
 
+class TDefaultDict(TDict):
+    """collections.defaultdict(<factory>) whose factory makes the EMPTY value of V (set / list): the same sort and type key as
+    TDict(K, V); reading an absent key is not a KeyError, it yields `empty` (a z3 term of V's sort) -- and, as in Python, an
+    in-place update of that value (`d[k].add(x)`) stores it under the key."""
+
+    def __init__(self, k: Ty, v: Ty, empty):
+        super().__init__(k, v)
+        self.empty = empty
+
+
 class TEnum(Ty):
     """A finite set of opaque tags (used for class ids, category strings...)."""
 
